@@ -47,9 +47,19 @@ func runC13(c *core.Ctx) {
 		srv := pool.Servers[wk]
 		r := c.Rng("case", i)
 		nrec := 1 + r.Intn(6)
+		depth := 1 + r.Intn(3)
+		var depthArgs []string
+		if r.Intn(8) == 0 {
+			// a book nested more deeply than the default limit, exported under a raised limit
+			nrec, depth = 14, 10+r.Intn(4)
+			depthArgs = []string{"--maxdepth", "20"}
+			if r.Intn(2) == 0 {
+				depthArgs = nil
+			}
+		}
 		all := gen.Names(r, nrec+5, namesCSV)
 		recipes, basics, unknown := all[:nrec], all[nrec:nrec+3], all[nrec+3:]
-		book := gen.RandomBook(r, gen.BookOpts{Recipes: nrec, Basics: 3, MaxDepth: 1 + r.Intn(3), Exact: false, RecipeNames: recipes, BasicNames: basics})
+		book := gen.RandomBook(r, gen.BookOpts{Recipes: nrec, Basics: 3, MaxDepth: depth, Exact: false, RecipeNames: recipes, BasicNames: basics})
 		for ri := range book {
 			for ei := range book[ri].Ents {
 				if r.Intn(3) == 0 {
@@ -178,7 +188,20 @@ func runC13(c *core.Ctx) {
 				wr = append(wr, want{name, el.Name, el.V, abs[name][el.Name]})
 			}
 		}
-		check("csv database-resolved", []string{"-d", "food.yaml", "csv", "database-resolved"}, wr, 2, "")
+		if chain, _ := model.Chain(book); chain >= 10 && depthArgs == nil {
+			// deeper than the default limit and no raised limit: the export must fail, not print rows
+			res := srv.App1([]string{"-d", "food.yaml", "csv", "database-resolved"}, nil)
+			c.Eval(1)
+			c.Count("deep_books_under_the_default_limit", 1)
+			if res.Exit == 0 {
+				c.Violation("csv database-resolved|deep-book-accepted", fmt.Sprintf("chain of %d references exported under the default limit", chain), caseDoc{Files: files, Args: []string{"csv", "database-resolved"}, Observed: resDoc(res)})
+			}
+		} else {
+			if depthArgs != nil {
+				c.Count("deep_books_under_a_raised_limit", 1)
+			}
+			check("csv database-resolved", append(append([]string{"-d", "food.yaml"}, depthArgs...), "csv", "database-resolved"), wr, 2, "")
+		}
 		if i < 2 {
 			c.Sample(map[string]any{"food.yaml": clip(files["food.yaml"], 500), "log.yaml": clip(files["log.yaml"], 500)})
 		}
